@@ -45,4 +45,28 @@ pub mod phase1 {
     pub fn last() -> (usize, usize, bool) {
         LAST.with(|c| c.get())
     }
+
+    /// A position (sheet, row, column).
+    pub type Pos = (u32, i32, i32);
+    /// One pass of phase 1: the order of the spill anchors when the pass started and, if the pass
+    /// was cut short, the index `i` of the anchor that was moved together with ALL indices
+    /// `j < i` whose recorded support intersects the area written by anchor `i` (the scheduler
+    /// itself uses the first of them).
+    pub type Pass = (Vec<Pos>, Option<(usize, Vec<usize>)>);
+    thread_local! {
+        static TRACE: std::cell::RefCell<(Vec<Pass>, Vec<Pos>)> = const { std::cell::RefCell::new((Vec::new(), Vec::new())) };
+    }
+    pub fn reset() {
+        TRACE.with(|t| *t.borrow_mut() = (Vec::new(), Vec::new()));
+    }
+    pub fn record_pass(order: Vec<Pos>, conflict: Option<(usize, Vec<usize>)>) {
+        TRACE.with(|t| t.borrow_mut().0.push((order, conflict)));
+    }
+    pub fn record_final(order: Vec<Pos>) {
+        TRACE.with(|t| t.borrow_mut().1 = order);
+    }
+    /// (passes, final order) of the last `Model::evaluate` on this thread.
+    pub fn trace() -> (Vec<Pass>, Vec<Pos>) {
+        TRACE.with(|t| t.borrow().clone())
+    }
 }
